@@ -1,12 +1,19 @@
 (* Proofs about the model of the module editing API (CardEdit.v) and its rose-tree
    specification (CardEditSpec.v).  Structure:
-   1. nested induction principle for [card]; the abstraction [to_rose] is injective
-   2. children_agree; the lens returned by get_child_mut; remove_child / insert_child /
-      replace_child kind by kind against the generic node edits of the specification
-   3. path level and module level: every call of the model refines the specification outside the
-      decidable known-finding classes ([*_refines], [step_refines])
-   4. laws of the specification (replace_back, remove_insert, swap, locality, walk) and their
-      transfer to the model; [*_refuted] witnesses for the known-finding classes *)
+   1. children_agree; nested induction principle for [card]; the abstraction [to_rose] is injective
+   2. the lens returned by get_child_mut; remove_child / insert_child / replace_child kind by kind
+      against the generic node edits of the specification
+   3. path level and module level: get_card(_mut) / replace / remove / insert refine the
+      specification ([*_refines]); replace_back, failed edits are no-ops
+   4. walk_cards: every reported pair looks up (walk_lookup)
+   5. algebra of subtree lookup / replacement on rose trees; the CardIndex order; swap_cards refines
+      spec_swap; swap_involutive; swapping with an ancestor fails
+   6. walk_cards refines the pre-order listing; [step_refines] for every operation, [run_refines]
+   7. walk completeness and uniqueness; remove_insert at list positions; locality of
+      replace / swap / insert / remove
+   8. witnesses for the three repaired findings over the *_legacy definitions
+   Nothing of the C16 statement is left open in this file. *)
+From Coq Require Import FinFun.
 From Cao Require Import ListUtil CheckUtil CardAst CardEdit CardEditSpec.
 
 Lemma nth_error_nil {A} i : @nth_error A [] i = None.
@@ -1608,6 +1615,453 @@ Proof.
   - rewrite H. reflexivity.
   - destruct H as (-> & -> & _). reflexivity.
   - contradiction.
+Qed.
+
+(* ---- walk_cards is the pre-order listing of the specification ---- *)
+
+Fixpoint rwalk_list (id : list nat) (l : list rose) (k : nat) : list (list nat * rose) :=
+  match l with
+  | [] => []
+  | ch :: t => ((id ++ [k], ch) :: rwalk ch (id ++ [k])) ++ rwalk_list id t (S k)
+  end.
+
+Lemma rwalk_unfold r id : rwalk r id = rwalk_list id (rkids r) 0.
+Proof.
+  destruct r as [l kids]. cbn [rwalk rkids]. generalize 0.
+  induction kids as [|ch t IH]; intros k; [reflexivity|]. cbn [rwalk_list]. rewrite <- IH. reflexivity.
+Qed.
+
+Definition abs_pc (pc : list nat * card) : list nat * rose := (fst pc, to_rose (snd pc)).
+
+Lemma rwalk_list_map id l :
+  Forall (fun c => forall id, rwalk (to_rose c) id = map abs_pc (visit_children c id)) l ->
+  forall k, rwalk_list id (map to_rose l) k = map abs_pc (visit_list id l k).
+Proof.
+  induction 1 as [|c l Hc _ IH]; intros k; [reflexivity|].
+  cbn [map rwalk_list visit_list]. rewrite map_app. cbn [map]. rewrite Hc, IH. reflexivity.
+Qed.
+
+Lemma rwalk_to_rose : forall c id, rwalk (to_rose c) id = map abs_pc (visit_children c id).
+Proof.
+  induction c as [c IH] using card_ind_children. intros id.
+  rewrite rwalk_unfold, to_rose_kids, visit_children_unfold. apply rwalk_list_map. exact IH.
+Qed.
+
+Definition abs_ic (ic : card_index * card) : nat * list nat * rose :=
+  (ci_function (fst ic), ci_indices (fst ic), to_rose (snd ic)).
+
+Lemma walk_fn_cards_refines fi cards : forall j,
+  map abs_ic (walk_fn_cards fi cards j) =
+  map (fun pr : list nat * rose => (fi, fst pr, snd pr)) (rwalk_list [] (map to_rose cards) j).
+Proof.
+  induction cards as [|c cards IH]; intros j; [reflexivity|].
+  cbn [walk_fn_cards map rwalk_list]. rewrite !map_app. cbn [map]. rewrite IH. f_equal. f_equal.
+  rewrite rwalk_to_rose, !map_map. apply map_ext. intros [p x]. reflexivity.
+Qed.
+
+Lemma walk_fns_refines fns : forall fi,
+  map abs_ic (walk_fns fns fi) = spec_walk_fns (map body_rose fns) fi.
+Proof.
+  induction fns as [|[name fn] fns IH]; intros fi; [reflexivity|].
+  cbn [walk_fns map spec_walk_fns]. rewrite map_app, IH. f_equal.
+  rewrite walk_fn_cards_refines. unfold body_rose. cbn [fst snd]. rewrite rwalk_unfold. reflexivity.
+Qed.
+
+Theorem walk_cards_refines m : map abs_ic (walk_cards m) = spec_walk (to_rmod m).
+Proof. apply walk_fns_refines. Qed.
+
+Lemma step_refines_walk m :
+  spec_step (to_rmod m) OpWalk = (to_rmod (fst (step m OpWalk)), abs_obs (snd (step m OpWalk))).
+Proof. cbn [spec_step step fst snd abs_obs]. rewrite <- walk_cards_refines. reflexivity. Qed.
+
+(* one API call of the kind-by-kind model is the same call of the rose-tree specification:
+   every operation, every module, every argument *)
+Theorem step_refines m o :
+  spec_step (to_rmod m) o = (to_rmod (fst (step m o)), abs_obs (snd (step m o))).
+Proof.
+  destruct o.
+  - destruct (step_refines_get m idx) as [H1 H2]. rewrite H2. exact H1.
+  - destruct (step_refines_get_mut m idx) as [H1 H2]. rewrite H2. exact H1.
+  - apply step_refines_insert.
+  - apply step_refines_remove.
+  - apply step_refines_replace.
+  - apply step_refines_swap.
+  - apply step_refines_walk.
+  - apply step_refines_kids.
+  - apply step_refines_replace_child.
+Qed.
+
+(* ... and so is every history *)
+Fixpoint spec_run (M : rmodule) (ops : list op) : list (robs * rmodule) :=
+  match ops with
+  | [] => []
+  | o :: t => let '(M', ob) := spec_step M o in (ob, M') :: spec_run M' t
+  end.
+
+Theorem run_refines ops : forall m,
+  map (fun om : obs * module => (abs_obs (fst om), to_rmod (snd om))) (run m ops) = spec_run (to_rmod m) ops.
+Proof.
+  induction ops as [|o ops IH]; intros m; [reflexivity|]. cbn [run spec_run].
+  rewrite (step_refines m o). destruct (step m o) as [m' ob]. cbn [map fst snd]. rewrite IH. reflexivity.
+Qed.
+
+(* ---- walk_cards lists every card: completeness ---- *)
+
+Lemma visit_list_intro id l : forall k j ch,
+  nth_error l j = Some ch ->
+  In (id ++ [k + j], ch) (visit_list id l k) /\
+  incl (visit_children ch (id ++ [k + j])) (visit_list id l k).
+Proof.
+  induction l as [|a l IH]; intros k [|j] ch E; cbn [nth_error] in E; try discriminate.
+  - injection E as ->. rewrite Nat.add_0_r. cbn [visit_list]. split.
+    + apply in_or_app. left. left. reflexivity.
+    + intros e He. apply in_or_app. left. right. exact He.
+  - destruct (IH (S k) j ch E) as [I1 I2]. rewrite <- plus_n_Sm. cbn [visit_list]. cbn [Nat.add] in *. split.
+    + apply in_or_app. right. exact I1.
+    + intros e He. apply in_or_app. right. apply I2. exact He.
+Qed.
+
+Lemma reach_visit q : forall c id x, q <> [] -> reach q c = Some x -> In (id ++ q, x) (visit_children c id).
+Proof.
+  induction q as [|i q IH]; [congruence|]. intros c id x _. cbn [reach].
+  pose proof (get_child_mut_spec c i) as H. destruct (get_child_mut c i) as [[ch put]|]; [|discriminate].
+  destruct H as [E _]. intros R. rewrite visit_children_unfold.
+  destruct (visit_list_intro id (iter_children c) 0 i ch E) as [I1 I2]. cbn [Nat.add] in *.
+  destruct q as [|i' q].
+  - cbn [reach] in R. injection R as <-. exact I1.
+  - apply I2. specialize (IH ch (id ++ [i]) x ltac:(discriminate) R). rewrite <- app_assoc in IH. exact IH.
+Qed.
+
+Lemma descend_mut_id_inv path : forall d c c' x,
+  descend_mut path d c (fun c0 => ROk (c0, c0)) = ROk (c', x) -> reach path c = Some x.
+Proof.
+  induction path as [|i path IH]; intros d c c' x; cbn [descend_mut reach].
+  - intros [= _ ->]. reflexivity.
+  - destruct (get_child_mut c i) as [[ch put]|]; [|discriminate].
+    destruct (descend_mut path (S d) ch (fun c0 => ROk (c0, c0))) as [[ch' y]|e|] eqn:E; try discriminate.
+    intros [= _ <-]. eapply IH; eauto.
+Qed.
+
+Lemma In_walk_fn_cards_intro fi cards : forall j k card q x,
+  nth_error cards k = Some card -> reach q card = Some x ->
+  In (mk_index fi ((j + k) :: q), x) (walk_fn_cards fi cards j).
+Proof.
+  induction cards as [|c cards IH]; intros j [|k] card q x E R; cbn [nth_error] in E; try discriminate.
+  - injection E as ->. rewrite Nat.add_0_r. cbn [walk_fn_cards]. apply in_or_app. left.
+    destruct q as [|i q].
+    + cbn [reach] in R. injection R as <-. left. reflexivity.
+    + right. apply in_map_iff. exists ([j] ++ i :: q, x). split; [reflexivity|].
+      apply reach_visit; [discriminate|exact R].
+  - cbn [walk_fn_cards]. apply in_or_app. right. rewrite <- plus_n_Sm. apply (IH (S j) k card q x E R).
+Qed.
+
+Lemma In_walk_fns_intro fns : forall fi n name fn k card q x,
+  nth_error fns n = Some (name, fn) -> nth_error (f_cards fn) k = Some card -> reach q card = Some x ->
+  In (mk_index (fi + n) (k :: q), x) (walk_fns fns fi).
+Proof.
+  induction fns as [|[name0 fn0] fns IH]; intros fi [|n] name fn k card q x E1 E2 R; cbn [nth_error] in E1; try discriminate.
+  - injection E1 as -> ->. rewrite Nat.add_0_r. cbn [walk_fns]. apply in_or_app. left.
+    apply (In_walk_fn_cards_intro fi (f_cards fn) 0 k card q x E2 R).
+  - cbn [walk_fns]. apply in_or_app. right. rewrite <- plus_n_Sm. apply (IH (S fi) n name fn k card q x E1 E2 R).
+Qed.
+
+Theorem walk_complete m idx x : get_card_mut m idx = ROk x -> In (idx, x) (walk_cards m).
+Proof.
+  unfold get_card_mut, with_card_mut. destruct idx as [f ind]. cbn [ci_function ci_indices]. unfold ci_begin. cbn [ci_indices].
+  destruct (nth_error (m_functions m) f) as [[name fn]|] eqn:EF; [|discriminate].
+  destruct ind as [|b path]; [discriminate|].
+  destruct (nth_error (f_cards fn) b) as [card|] eqn:EC; [|discriminate].
+  rewrite slice_tail.
+  destruct (descend_mut path 1 card (fun c => ROk (c, c))) as [[c' y]|e|] eqn:ED; try discriminate.
+  intros [= ->]. apply descend_mut_id_inv in ED.
+  apply (In_walk_fns_intro (m_functions m) 0 f name fn b card path x EF EC ED).
+Qed.
+
+(* every card has exactly one entry: the walk reports (idx, c) iff idx looks up to c *)
+Theorem walk_iff m idx x : In (idx, x) (walk_cards m) <-> get_card_mut m idx = ROk x.
+Proof. split; [intros H; apply (walk_lookup m idx x H)|apply walk_complete]. Qed.
+
+(* ---- ... exactly once: the reported indices are pairwise different ---- *)
+
+Lemma NoDup_app_intro {A} (a b : list A) :
+  NoDup a -> NoDup b -> (forall x, In x a -> In x b -> False) -> NoDup (a ++ b).
+Proof.
+  induction 1 as [|x a Hx Ha IH]; intros Hb D; [exact Hb|]. cbn [app]. constructor.
+  - intros HI. apply in_app_or in HI. destruct HI as [HI|HI]; [contradiction|]. apply (D x); [left; reflexivity|exact HI].
+  - apply IH; auto. intros y Hy. apply D. right. exact Hy.
+Qed.
+
+Lemma visit_paths c id p x : In (p, x) (visit_children c id) -> exists i q, p = id ++ i :: q.
+Proof.
+  intros H. rewrite visit_children_unfold in H. apply In_visit_list in H.
+  destruct H as (j & ch & E & [[-> _]|H]); cbn [Nat.add].
+  - exists j, []. reflexivity.
+  - apply visit_reach in H. destruct H as (q & -> & _). exists j, q. rewrite <- app_assoc. reflexivity.
+Qed.
+
+Lemma visit_list_paths id l : forall k p x,
+  In (p, x) (visit_list id l k) -> exists j q, p = id ++ (k + j) :: q.
+Proof.
+  intros k p x H. apply In_visit_list in H. destruct H as (j & ch & E & [[-> _]|H]).
+  - exists j, []. reflexivity.
+  - apply visit_reach in H. destruct H as (q & -> & _). exists j, q. rewrite <- app_assoc. reflexivity.
+Qed.
+
+Lemma in_map_fst {A B} (l : list (A * B)) p : In p (map fst l) -> exists x, In (p, x) l.
+Proof. intros H. apply in_map_iff in H. destruct H as ([p' x] & <- & H). eauto. Qed.
+
+Lemma NoDup_visit_list id l :
+  Forall (fun c => forall id, NoDup (map fst (visit_children c id))) l ->
+  forall k, NoDup (map fst (visit_list id l k)).
+Proof.
+  induction 1 as [|c l Hc _ IH]; intros k; [constructor|].
+  cbn [visit_list]. rewrite map_app. cbn [map fst]. apply NoDup_app_intro.
+  - constructor; [|apply Hc]. intros HI. apply in_map_fst in HI. destruct HI as (x & HI).
+    apply visit_paths in HI. destruct HI as (i & q & E). rewrite <- app_assoc in E.
+    apply app_inv_head in E. discriminate.
+  - apply IH.
+  - intros p H1 H2. apply in_map_fst in H2. destruct H2 as (x2 & H2). apply visit_list_paths in H2.
+    destruct H2 as (j & q & ->). destruct H1 as [H1|H1].
+    + apply app_inv_head in H1. injection H1 as H1 _. lia.
+    + apply in_map_fst in H1. destruct H1 as (x1 & H1). apply visit_paths in H1. destruct H1 as (i & q' & E).
+      rewrite <- app_assoc in E. apply app_inv_head in E. injection E as E _. lia.
+Qed.
+
+Lemma NoDup_visit_children : forall c id, NoDup (map fst (visit_children c id)).
+Proof.
+  induction c as [c IH] using card_ind_children. intros id. rewrite visit_children_unfold.
+  apply NoDup_visit_list. exact IH.
+Qed.
+
+Lemma walk_fn_cards_fst fi cards : forall j,
+  map fst (walk_fn_cards fi cards j) = map (mk_index fi) (map fst (visit_list [] cards j)).
+Proof.
+  induction cards as [|c cards IH]; intros j; [reflexivity|].
+  cbn [walk_fn_cards visit_list]. rewrite !map_app. cbn [map fst app]. rewrite IH. f_equal. f_equal.
+  rewrite !map_map. reflexivity.
+Qed.
+
+Lemma NoDup_walk_fns fns : forall fi, NoDup (map fst (walk_fns fns fi)).
+Proof.
+  induction fns as [|[name fn] fns IH]; intros fi; [constructor|].
+  cbn [walk_fns]. rewrite map_app. apply NoDup_app_intro.
+  - rewrite walk_fn_cards_fst. apply Injective_map_NoDup.
+    + intros p q [= ->]. reflexivity.
+    + apply NoDup_visit_list. apply Forall_forall. intros c _. apply NoDup_visit_children.
+  - apply IH.
+  - intros idx H1 H2. apply in_map_fst in H1. apply in_map_fst in H2.
+    destruct H1 as (x1 & H1), H2 as (x2 & H2).
+    apply In_walk_fn_cards in H1. destruct H1 as (k & card & q & _ & -> & _).
+    apply In_walk_fns in H2. destruct H2 as (n & name' & fn' & k' & card' & q' & _ & _ & E & _).
+    injection E as E _. lia.
+Qed.
+
+Theorem walk_unique m : NoDup (map fst (walk_cards m)).
+Proof. apply NoDup_walk_fns. Qed.
+
+(* ---- remove undoes insert at list positions ---- *)
+
+Lemma node_remove_insert x i r r' :
+  node_insert x i r = Some (r', tt) -> list_pos (rlabel r) i = true -> node_remove i r' = Some (r, x).
+Proof.
+  destruct r as [l kids]. cbn [node_insert rlabel]. intros H L. rewrite L in H.
+  destruct (Nat.leb_spec i (length kids)) as [Hi|Hi]; [|discriminate]. injection H as <-.
+  cbn [node_remove]. rewrite nth_error_insert_nth by exact Hi. rewrite L, remove_insert_nth by exact Hi. reflexivity.
+Qed.
+
+Lemma rmodify_remove_insert x i p : forall d r r' par,
+  rmodify p d (node_insert x i) r = SOk (r', tt) -> rsub p r = Some par -> list_pos (rlabel par) i = true ->
+  rmodify p d (node_remove i) r' = SOk (r, x).
+Proof.
+  induction p as [|j p IH]; intros d r r' par; cbn [rmodify rsub].
+  - destruct (node_insert x i r) as [[r1 []]|] eqn:E; [|discriminate]. intros [= <-] [= <-] L.
+    rewrite (node_remove_insert _ _ _ _ E L). reflexivity.
+  - destruct r as [l kids]. cbn [rkids rlabel]. destruct (nth_error kids j) as [ch|] eqn:E; [|discriminate].
+    destruct (rmodify p (S d) (node_insert x i) ch) as [[ch' []]|] eqn:E2; [|discriminate].
+    intros [= <-] S L. cbn [rkids rlabel].
+    rewrite nth_error_upd_same by (eapply nth_error_Some_lt; eauto).
+    rewrite (IH _ _ _ _ E2 S L), upd_upd, (upd_nth_error _ _ _ E). reflexivity.
+Qed.
+
+(* the position an index addresses is a position of a list (a function body, the arguments of a
+   call, the cards of a composite card / array / closure), not a fixed slot *)
+Definition list_position (M : rmodule) (idx : card_index) : bool :=
+  match nth_error (rm_fns M) (ci_function idx) with
+  | Some body =>
+      match rsub (removelast (ci_indices idx)) body with
+      | Some par => list_pos (rlabel par) (last (ci_indices idx) 0)
+      | None => false
+      end
+  | None => false
+  end.
+
+Theorem spec_remove_insert M idx x M1 :
+  spec_insert M idx x = SpOk (M1, tt) -> list_position M idx = true -> spec_remove M1 idx = SpOk (M, x).
+Proof.
+  unfold spec_insert, spec_remove, spec_edit, list_position. destruct M as [subs fns imps]. cbn [rm_fns].
+  destruct (nth_error fns (ci_function idx)) as [body|] eqn:E; [|discriminate].
+  destruct (ci_indices idx) as [|b path] eqn:EI; [discriminate|].
+  destruct (rmodify (removelast (b :: path)) 0 (node_insert x (last (b :: path) 0)) body) as [[body' []]|] eqn:E2; [|discriminate].
+  intros [= <-]. destruct (rsub (removelast (b :: path)) body) as [par|] eqn:ES; [|discriminate]. intros L.
+  unfold rset_fn. cbn [rm_fns rm_subs rm_imports].
+  rewrite nth_error_upd_same by (eapply nth_error_Some_lt; eauto).
+  rewrite (rmodify_remove_insert _ _ _ _ _ _ _ E2 ES L). unfold rset_fn. cbn [rm_fns rm_subs rm_imports].
+  rewrite upd_upd, (upd_nth_error _ _ _ E). reflexivity.
+Qed.
+
+Theorem remove_insert m idx x m1 :
+  insert_card m idx x = ROk (m1, tt) -> list_position (to_rmod m) idx = true ->
+  remove_card m1 idx = ROk (m, x).
+Proof.
+  intros E L. pose proof (insert_card_refines m idx x) as H. rewrite E in H.
+  apply spec_remove_insert in H; [|exact L]. pose proof (remove_card_refines m1 idx) as H2.
+  destruct (remove_card m1 idx) as [[m2 y]|e|]; [|congruence|contradiction].
+  rewrite H in H2.
+  assert (Hm : to_rmod m = to_rmod m2) by congruence. assert (Hx : to_rose x = to_rose y) by congruence.
+  apply to_rmod_inj in Hm. apply to_rose_inj in Hx. congruence.
+Qed.
+
+(* top-level cards of a function are list positions *)
+Corollary remove_insert_top_level m f i x m1 :
+  insert_card m (mk_index f [i]) x = ROk (m1, tt) -> remove_card m1 (mk_index f [i]) = ROk (m, x).
+Proof.
+  intros E. apply remove_insert; [exact E|]. unfold list_position. cbn [mk_index ci_function ci_indices removelast rsub].
+  unfold insert_card in E. cbn [mk_index ci_function ci_indices] in E. cbn [to_rmod rm_fns]. rewrite nth_error_map.
+  destruct (nth_error (m_functions m) f) as [[name fn]|]; [|discriminate]. reflexivity.
+Qed.
+
+(* ---- locality ---- *)
+
+(* a replaced card: every card whose index is neither the index, an extension of it nor a prefix
+   of it is where it was and what it was *)
+Lemma get_card_mut_sub m idx c : get_card_mut m idx = ROk c <-> sub (to_rmod m) idx = Some (to_rose c).
+Proof.
+  pose proof (get_card_mut_refines m idx) as H. pose proof (spec_get_sub (to_rmod m) idx) as S. split; intros E.
+  - rewrite E in H. rewrite H in S. exact S.
+  - destruct (get_card_mut m idx) as [c'|e|]; [|rewrite H in S; congruence|contradiction].
+    rewrite H in S. assert (X : to_rose c' = to_rose c) by congruence. apply to_rose_inj in X. congruence.
+Qed.
+
+Theorem replace_local m idx x m' old j c :
+  replace_card m idx x = ROk (m', old) -> related idx j = false ->
+  (get_card_mut m' j = ROk c <-> get_card_mut m j = ROk c).
+Proof.
+  intros E R. pose proof (replace_card_sp m idx x) as H. rewrite E in H. destruct H as [S M'].
+  rewrite !get_card_mut_sub. rewrite M', (sub_put_other (to_rmod m) idx j (to_rose x)); [reflexivity|eapply sub_nonempty; eauto|exact R].
+Qed.
+
+(* swapped cards: everything not related to either index stays *)
+Theorem swap_local m a b m' j c :
+  swap_cards m a b = (m', SwOk) -> related a j = false -> related b j = false ->
+  (get_card_mut m' j = ROk c <-> get_card_mut m j = ROk c).
+Proof.
+  intros E Ra Rb. pose proof (swap_cards_refines m a b) as H. rewrite E in H. cbn [fst snd] in H.
+  rewrite spec_swap_char in H. destruct (sub (to_rmod m) a) as [ra|] eqn:Sa; [|discriminate].
+  destruct (sub (to_rmod m) b) as [rb|] eqn:Sb; [|discriminate].
+  rewrite !get_card_mut_sub. destruct (ci_eqb a b).
+  { assert (X : to_rmod m' = to_rmod m) by congruence. rewrite X. reflexivity. }
+  destruct (related a b); [discriminate|].
+  assert (X : to_rmod m' = put (put (to_rmod m) a rb) b ra) by congruence. rewrite X.
+  rewrite (sub_put_other (put (to_rmod m) a rb) b j ra), (sub_put_other (to_rmod m) a j rb);
+    [reflexivity|eapply sub_nonempty; eauto|exact Ra|eapply sub_nonempty; eauto|exact Rb].
+Qed.
+
+(* ---- locality of insert / remove ---- *)
+
+Definition k_local {A} (k : rose -> option (rose * A)) (i : nat) : Prop :=
+  forall par par' a, k par = Some (par', a) ->
+                     forall j, j < i -> nth_error (rkids par') j = nth_error (rkids par) j.
+
+Lemma rmodify_local {A} (k : rose -> option (rose * A)) i P : k_local k i -> forall d r r' a Q,
+  rmodify P d k r = SOk (r', a) -> is_prefix Q P = false ->
+  (forall n, i <= n -> is_prefix (P ++ [n]) Q = false) -> rsub Q r' = rsub Q r.
+Proof.
+  intros KL. induction P as [|p P IH]; intros d r r' a Q; cbn [rmodify].
+  - destruct (k r) as [[r1 a1]|] eqn:E; [|discriminate]. intros [= <- <-] HQ HN.
+    destruct Q as [|j Q]; [discriminate|]. cbn [rsub].
+    assert (Hj : j < i).
+    { destruct (Nat.lt_ge_cases j i) as [|G]; [assumption|]. specialize (HN j G). cbn in HN.
+      rewrite Nat.eqb_refl in HN. discriminate. }
+    rewrite (KL _ _ _ E j Hj). reflexivity.
+  - destruct r as [l kids]. cbn [rkids rlabel]. destruct (nth_error kids p) as [ch|] eqn:E; [|discriminate].
+    destruct (rmodify P (S d) k ch) as [[ch' a1]|] eqn:E2; [|discriminate]. intros [= <- <-] HQ HN.
+    destruct Q as [|j Q]; [discriminate|]. cbn [rsub rkids]. cbn [is_prefix] in HQ.
+    destruct (Nat.eqb_spec j p) as [->|NE].
+    + rewrite nth_error_upd_same by (eapply nth_error_Some_lt; eauto). rewrite E.
+      cbn [andb] in HQ. eapply IH; eauto. intros n Hn. specialize (HN n Hn). cbn in HN.
+      rewrite Nat.eqb_refl in HN. exact HN.
+    + rewrite nth_error_upd_other by auto. reflexivity.
+Qed.
+
+Lemma nth_error_insert_nth_lt {A} (l : list A) i x : i <= length l ->
+  forall j, j < i -> nth_error (insert_nth l i x) j = nth_error l j.
+Proof.
+  revert l; induction i as [|i IH]; intros l L j H; [lia|]. destruct l as [|a l]; cbn [insert_nth length] in *; [lia|].
+  destruct j as [|j]; [reflexivity|]. cbn [nth_error]. apply IH; lia.
+Qed.
+
+Lemma nth_error_remove_nth_lt {A} (l : list A) i : forall j, j < i -> nth_error (remove_nth l i) j = nth_error l j.
+Proof.
+  revert i; induction l as [|a l IH]; intros i j H; [reflexivity|]. destruct i as [|i]; [lia|].
+  cbn [remove_nth]. destruct j as [|j]; [reflexivity|]. cbn [nth_error]. apply IH. lia.
+Qed.
+
+Lemma node_insert_local x i : k_local (node_insert x i) i.
+Proof.
+  intros [l kids] par' a. cbn [node_insert]. intros H j Hj.
+  destruct (list_pos l i).
+  - destruct (Nat.leb_spec i (length kids)); [|discriminate]. injection H as <- _. cbn [rkids]. apply nth_error_insert_nth_lt; assumption.
+  - destruct (i <? length kids); [|discriminate]. injection H as <- _. cbn [rkids]. apply nth_error_upd_other. lia.
+Qed.
+
+Lemma node_remove_local i : k_local (node_remove i) i.
+Proof.
+  intros [l kids] par' a. cbn [node_remove]. intros H j Hj.
+  destruct (nth_error kids i); [|discriminate]. injection H as <- _.
+  destruct (list_pos l i); cbn [rkids]; [apply nth_error_remove_nth_lt; exact Hj|apply nth_error_upd_other; lia].
+Qed.
+
+(* index [j] is outside the part of the tree an insert / remove at [idx] may touch: it is not the
+   parent of the edited position nor an ancestor of it, and it does not go through the edited
+   position or a later sibling of it *)
+Definition unaffected (idx j : card_index) : Prop :=
+  ci_function j <> ci_function idx \/
+  (is_prefix (ci_indices j) (removelast (ci_indices idx)) = false /\
+   forall n, last (ci_indices idx) 0 <= n ->
+             is_prefix (removelast (ci_indices idx) ++ [n]) (ci_indices j) = false).
+
+Lemma spec_edit_local {A} (k : rose -> option (rose * A)) M idx M' a j :
+  spec_edit M idx (removelast (ci_indices idx)) k = SpOk (M', a) ->
+  k_local k (last (ci_indices idx) 0) -> unaffected idx j -> sub M' j = sub M j.
+Proof.
+  unfold spec_edit. destruct (nth_error (rm_fns M) (ci_function idx)) as [body|] eqn:E; [|discriminate].
+  destruct (ci_indices idx) as [|b path] eqn:EI; [discriminate|].
+  destruct (rmodify (removelast (b :: path)) 0 k body) as [[body' a']|] eqn:E2; [|discriminate].
+  intros [= <- <-] KL U. unfold sub, gp, root, rset_fn. cbn [rm_fns rsub rkids].
+  destruct (ci_indices j) as [|bj pj] eqn:EJ; [reflexivity|].
+  destruct (Nat.eq_dec (ci_function j) (ci_function idx)) as [EQ|NE].
+  - rewrite EQ, nth_error_upd_same by (eapply nth_error_Some_lt; eauto). rewrite E.
+    destruct U as [U|[U1 U2]]; [contradiction|]. rewrite EI, EJ in *.
+    exact (rmodify_local k _ _ KL _ _ _ _ _ E2 U1 U2).
+  - rewrite nth_error_upd_other by auto. reflexivity.
+Qed.
+
+Theorem insert_local m idx x m1 j c :
+  insert_card m idx x = ROk (m1, tt) -> unaffected idx j ->
+  (get_card_mut m1 j = ROk c <-> get_card_mut m j = ROk c).
+Proof.
+  intros E U. pose proof (insert_card_refines m idx x) as H. rewrite E in H.
+  rewrite !get_card_mut_sub. unfold spec_insert in H.
+  rewrite (spec_edit_local _ _ _ _ _ j H (node_insert_local _ _) U). reflexivity.
+Qed.
+
+Theorem remove_local m idx m1 y j c :
+  remove_card m idx = ROk (m1, y) -> unaffected idx j ->
+  (get_card_mut m1 j = ROk c <-> get_card_mut m j = ROk c).
+Proof.
+  intros E U. pose proof (remove_card_refines m idx) as H. rewrite E in H.
+  rewrite !get_card_mut_sub. unfold spec_remove in H.
+  rewrite (spec_edit_local _ _ _ _ _ j H (node_remove_local _) U). reflexivity.
 Qed.
 
 (* ---- the three repaired findings, as witnesses on the pre-repair definitions ---- *)
